@@ -2,7 +2,9 @@
 
 A case is a *spec* (JSON-able list of layer records, see pvf/ref/pktdissect.py).  run_case assembles the
 stack with POX's own classes (POX as the builder), packs it, parses the bytes back with ethernet(), and
-compares class chain, `parsed` flags, header fields, innermost payload and q.pack() == b.  Independently the
+compares class chain, `parsed` flags, header fields, innermost payload and q.pack() == b.  When that holds, the
+parsed packet is also edited (one field or one option/TLV value at a time), packed and parsed again: the new value must read
+back, nothing else may change, and the new bytes must again carry valid lengths and checksums.  Independently the
 reference dissector walks the emitted bytes: every length field must delimit exactly what follows it, every
 Internet checksum must equal the RFC 1071 reference (pvf/ref/rfc1071.py), and the innermost payload must sit
 where the headers say.  Every spec with a free payload is executed for both parities of the payload length.
@@ -33,6 +35,10 @@ ASSUMPTIONS = [
   "fields the library leaves to the caller are set to consistent values (ipv4.hl for raw_options, llc.length for the control width, eapol.bodylen, eap.length)",
   "DHCP sname/file are compared modulo trailing zero padding; DNS rr.rdlen of a built record is not compared (the builder computes it)",
   "only emitted lengths and checksums are judged against the independent reference; other field encodings are judged by the round trip only",
+  "edit-after-parse clause (a metamorphic reading of 'serialising the parsed result'): on a fresh parse one public header field, or one option/"
+  "TLV/record value in place, is set to another valid value; excluded are demultiplexing keys, fields hdr() derives (lengths, checksums, "
+  "tcp.off, ipv4.hl/raw_options), DHCP options (the option dictionary tracks shallow changes only, by design) and absent optional values; "
+  "a parsed numeric gre.csum is set to True before re-packing, which is the documented way to have it recomputed",
 ]
 EXHAUSTIVE_SCOPE = {
   "quick": "the catalog of one minimal instance per protocol / message kind (pvf.ref.pktdissect.catalog), each with payload lengths 0, 1, 6, 7; "
